@@ -797,7 +797,8 @@ theorem canPut_chain (σ : FnM.St) (x : String) (hv : Visible σ x) (hw : Writab
           simp only [Option.map_some, Option.some.injEq] at h1
           have := hw a o x q ho hl hh
           simp only [Option.map_some, h1, this]
-          rfl
+          show (!(x == "length" && Fn.isFnKind (absKind o.val)) && !([] : List String).contains x) = _
+          simp
       | none =>
         rw [hown] at h1
         cases hl : Fn.lookupA x o.props with
@@ -1219,11 +1220,14 @@ theorem filter_names_nodup {β : Type} (q : String × β → Bool) (l : List (St
       exact h.1 (List.mem_map.2 ⟨e, (List.mem_filter.1 he).1, hee⟩)
     · exact ih h.2
 
+theorem absObj_dd (o : FnM.Obj) (x : String) : (absObj o).dontDelete.contains x = false := rfl
+
 theorem absObj_remove (o : FnM.Obj) (x : String) (val' : FnM.OVal) (hh : hidden o.val x = false)
     (hsame : ∀ k, hidden val' k = hidden o.val k) (hn : (o.props.map (·.1)).Nodup) :
     absObj { o with props := Fn.removeA x o.props, val := val' } =
       { absObj o with props := Fn.removeA x (absObj o).props, kind := absKind val',
-                      dontEnum := (absObj o).dontEnum.filter (· != x) } := by
+                      dontEnum := (absObj o).dontEnum.filter (· != x),
+                      readOnly := (absObj o).readOnly.filter (· != x) } := by
   have hq : (fun k => !hidden o.val k) x = true := by simp [hh]
   have hfun : (fun p : String × FnM.Pty => !hidden val' p.1) = (fun p : String × FnM.Pty => !hidden o.val p.1) := by
     funext p; rw [hsame]
@@ -1358,7 +1362,7 @@ theorem delProp_spec (σ : FnM.St) (a : Nat) (x : String) (hv : Visible σ x) (h
         obtain ⟨e, he, hee⟩ := List.mem_map.1 hmem
         exact h1 (List.mem_map.2 ⟨e, (List.mem_filter.1 he).1, hee⟩)
       rw [filter_ne_notmem x _ hne]
-      have : ({ props := (absObj o).props, proto := (absObj o).proto, kind := (absObj o).kind, dontEnum := (absObj o).dontEnum } : Fn.Obj) = absObj o := rfl
+      have : ({ props := (absObj o).props, proto := (absObj o).proto, kind := (absObj o).kind, dontEnum := (absObj o).dontEnum, readOnly := List.filter (fun x_1 => x_1 != x) (absObj o).readOnly, dontDelete := (absObj o).dontDelete } : Fn.Obj) = absObj o := rfl
       rw [this, absSt_setObj_self σ a o ho]
     | some p =>
       have hpc := hc o p ho hl
@@ -1369,7 +1373,7 @@ theorem delProp_spec (σ : FnM.St) (a : Nat) (x : String) (hv : Visible σ x) (h
         simp [hf, FnM.typeErrorResult, absR, boolR]
       | true =>
         have hf : Fn.fixedProp (absKind o.val) x = false := by rw [hcc] at hpc; simpa using hpc.symm
-        simp only [hf, Bool.false_eq_true, if_false, if_true, bind_run, getSt_run, ho,
+        simp only [hf, absObj_dd, Bool.or_false, Bool.false_eq_true, if_false, if_true, bind_run, getSt_run, ho,
           unmapIndex_nonargs o.val x (hna o ho), setObj_run, pure_run, absR, boolR, absSt_setObj]
         rw [absObj_remove o x o.val hh (fun _ => rfl) (hn a o ho)]
 
@@ -1453,6 +1457,8 @@ theorem putProp_mapped_spec (σ : FnM.St) (a : Nat) (x : String) (v : Fn.V) (o :
     have hs'' := hs'
     simp only [σh] at hs''
     simp only [Bool.not_true, Bool.false_eq_true, if_false, bind_run, hamp, hs'', pure_run]
+    have hnw : ((!p0.w) = true) = False := by simp [hw]
+    simp only [hnw, if_false, pure_run]
     rfl
   unfold FnM.objPut Fn.putProp
   simp only [bind_run, canPutDetails_run, hcpP, absSt_obj, ho, Option.map_some, absSt_heap_length, hcan, Bool.not_true,
@@ -1566,7 +1572,7 @@ theorem delete_spec (σ : FnM.St) (a : Nat) (x : String) (hv : Visible σ x) (hn
         obtain ⟨e, he, hee⟩ := List.mem_map.1 hmem
         exact h1 (List.mem_map.2 ⟨e, (List.mem_filter.1 he).1, hee⟩)
       rw [filter_ne_notmem x _ hne]
-      have : ({ props := (absObj o).props, proto := (absObj o).proto, kind := absKind o.val, dontEnum := (absObj o).dontEnum } : Fn.Obj) = absObj o := rfl
+      have : ({ props := (absObj o).props, proto := (absObj o).proto, kind := absKind o.val, dontEnum := (absObj o).dontEnum, readOnly := List.filter (fun x_1 => x_1 != x) (absObj o).readOnly, dontDelete := (absObj o).dontDelete } : Fn.Obj) = absObj o := rfl
       rw [this, absSt_setObj_self σ a o ho]
     | some p =>
       have hpc := hc o p ho hl
@@ -1583,7 +1589,7 @@ theorem delete_spec (σ : FnM.St) (a : Nat) (x : String) (hv : Visible σ x) (hn
           simp [hf, FnM.typeErrorResult, absR, boolR]
         | true =>
           have hf : Fn.fixedProp (absKind o.val) x = false := by rw [hcc] at hpc; simpa using hpc.symm
-          simp only [hf, Bool.false_eq_true, if_false, if_true, bind_run, getSt_run, ho, setObj_run, pure_run, absR, boolR,
+          simp only [hf, absObj_dd, Bool.or_false, Bool.false_eq_true, if_false, if_true, bind_run, getSt_run, ho, setObj_run, pure_run, absR, boolR,
             absSt_setObj]
           rw [absObj_remove o x (FnM.unmapIndex o.val x) hh (hidden_unmap o.val x) (hn a o ho), absKind_unmap]
 
@@ -1918,7 +1924,7 @@ theorem variableDeclaration_real (I : Call.Slot → Fn.V) (st : Nat) (outer ar :
     (rest : List FnM.Scope) (hv : sc.variable_ = st) (he : sc.eval = false) (hI : I .undef = .undef) :
     ∀ (vs : List String) (σ : FnM.St) (ps : List (String × FnM.DclProp)) (e : Call.EnvL),
       σ.scopes = sc :: rest → σ.stash? st = some (.fn outer ps ar) → AllMutable ps → RelEnv I ps e →
-      ∃ ps', FnM.variableDeclaration vs σ = .ok () (withStash σ st outer ps' ar) ∧
+      ∃ ps', FnM.variableDeclaration vs false σ = .ok () (withStash σ st outer ps' ar) ∧
         RelEnv I ps' (Call.bindVars vs e) ∧ AllMutable ps' := by
   intro vs
   induction vs with
@@ -2032,12 +2038,12 @@ theorem declStep_run (σ : FnM.St) (st : Nat) (outer : Option Nat) (ps : List (S
 /-- cmpl_evaluate.go:79 cmplFunctionDeclaration on the real stash = CallModel.bindFns: the j-th declaration's
     closure is the object allocated at `h0 + 2·j` (a function object and its prototype object per declaration) -/
 theorem functionDeclaration_real (I : Call.Slot → Fn.V) (st : Nat) (outer ar : Option Nat) (sc : FnM.Scope)
-    (rest : List FnM.Scope) (hv : sc.variable_ = st) (he : sc.eval = false) (h0 : Nat)
+    (rest : List FnM.Scope) (hv : sc.variable_ = st) (he : sc.eval = false) (hst0 : st ≠ 0) (h0 : Nat)
     (hI : ∀ j, I (.fn j) = .ref (h0 + 2 * j)) :
     ∀ (ds : Fn.FDecls) (n : Nat) (σ : FnM.St) (ps : List (String × FnM.DclProp)) (e : Call.EnvL) (j : Nat),
       (declNames ds).length < n → σ.scopes = sc :: rest → σ.stash? st = some (.fn outer ps ar) → AllMutable ps →
       RelEnv I ps e → σ.heap.length = h0 + 2 * j →
-      ∃ ps' σ', FnM.functionDeclaration n ds σ = .ok () σ' ∧ σ'.stash? st = some (.fn outer ps' ar) ∧
+      ∃ ps' σ', FnM.functionDeclaration n ds false σ = .ok () σ' ∧ σ'.stash? st = some (.fn outer ps' ar) ∧
         RelEnv I ps' (Call.bindFns (declNames ds) j e) ∧ AllMutable ps' ∧ σ'.scopes = σ.scopes ∧
         σ'.heap.length = h0 + 2 * (j + (declNames ds).length) := by
   intro ds
@@ -2084,7 +2090,8 @@ theorem functionDeclaration_real (I : Call.Slot → Fn.V) (st : Nat) (outer ar :
           exact hrun
         | some p =>
           have hpm : p.mutable_ = true := hm (name, p) (lookupA_mem name ps p hl)
-          simp only [Option.isSome_some, Bool.not_true, Bool.false_eq_true, if_false, FnM.setBinding, bind_run, getSt_run, hs1,
+          have hb0 : (st == 0) = false := by simp [hst0]
+          simp only [Option.isSome_some, Bool.not_true, hb0, Bool.false_eq_true, if_false, pure_run, FnM.setBinding, bind_run, getSt_run, hs1,
             FnM.dclSetBinding, hd1, hl, hpm, if_true, FnM.setDclProps, setStash_run]
           have hp : ({ value := .ref σ.heap.length, mutable_ := true, deletable := p.deletable, readable := p.readable } : FnM.DclProp) =
               { p with value := .ref σ.heap.length } := by simp [hpm]
@@ -2545,6 +2552,7 @@ theorem allMutable_nil : AllMutable [] := fun _ h => by simp at h
 theorem instantiateNode_real (n function st : Nat) (ps vs : List String) (ds : Fn.FDecls) (args : List Fn.V) (σ : FnM.St)
     (outer : Option Nat) (sc : FnM.Scope) (rest : List FnM.Scope)
     (hsc : σ.scopes = sc :: rest) (hlex : sc.lexical = st) (hvar : sc.variable_ = st) (hev : sc.eval = false)
+    (hst0 : st ≠ 0)
     (hs : σ.stash? st = some (.fn outer [] none)) (hn : (declNames ds).length < n) (hlen : args.length < 4294967295) :
     ∃ σ' ps' ar', FnM.instantiateNode n function st ps vs ds args σ = .ok () σ' ∧
       σ'.stash? st = some (.fn outer ps' ar') ∧
@@ -2566,7 +2574,7 @@ theorem instantiateNode_real (n function st : Nat) (ps vs : List String) (ds : F
   | true =>
     have hF0 : hF = σ.heap.length := by simp only [hF, hc, if_true, Nat.add_zero]
     try simp only [Bool.not_true, Bool.false_eq_true, if_false, pure_run]
-    obtain ⟨ps2, σ2, hrun2, hs2, hrel2, hmut2, hsc2, _⟩ := functionDeclaration_real I st outer none sc rest hvar hev hF hIf ds n σ1 ps1 _ 0 hn hsc1 hs1 hmut1 hrel1
+    obtain ⟨ps2, σ2, hrun2, hs2, hrel2, hmut2, hsc2, _⟩ := functionDeclaration_real I st outer none sc rest hvar hev hst0 hF hIf ds n σ1 ps1 _ 0 hn hsc1 hs1 hmut1 hrel1
       (by rw [hσ1len]; omega)
     have hsc2' : σ2.scopes = sc :: rest := by rw [hsc2]; exact hsc1
     obtain ⟨ps3, hrun3, hrel3, _⟩ := variableDeclaration_real I st outer none sc rest hvar hev rfl vs σ2 ps2 _ hsc2' hs2 hmut2 hrel2
@@ -2621,7 +2629,7 @@ theorem instantiateNode_real (n function st : Nat) (ps vs : List String) (ds : F
         rw [hf6.len]; show σ3.heap.length = _; rw [hf3.len, hlen2, hF1]
       have hrel5 : RelEnv I ps5 (Call.setValue "arguments" .argumentsObj (Call.bindParams args.length ps 0 [])) :=
         rel_setValue I "arguments" .argumentsObj _ ps1 hrel1
-      obtain ⟨ps7, σ7, hrun7, hs7, hrel7, hmut7, hsc7, _⟩ := functionDeclaration_real I st outer (some σ.heap.length) sc rest hvar hev hF hIf ds n σ6 ps5 _ 0 hn hsc6 hs6
+      obtain ⟨ps7, σ7, hrun7, hs7, hrel7, hmut7, hsc7, _⟩ := functionDeclaration_real I st outer (some σ.heap.length) sc rest hvar hev hst0 hF hIf ds n σ6 ps5 _ 0 hn hsc6 hs6
         (allMutable_setValueL "arguments" _ ps1 hmut1) hrel5 hlen6
       have hsc7' : σ7.scopes = sc :: rest := by rw [hsc7]; exact hsc6
       obtain ⟨ps8, hrun8, hrel8, _⟩ := variableDeclaration_real I st outer (some σ.heap.length) sc rest hvar hev rfl vs σ7 ps7 _ hsc7' hs7 hmut7 hrel7
